@@ -1,6 +1,8 @@
 package main
 
 import (
+	"math"
+	"strconv"
 	"verifharness/internal/idlgen"
 	"verifharness/internal/values"
 )
@@ -16,7 +18,9 @@ func directedProgram() *idlgen.Program {
 	cs := func(s string) *idlgen.Const {
 		return &idlgen.Const{Kind: idlgen.CString, Text: s, Quote: '"', Val: values.Str(s)}
 	}
-	ci := func(t string, v int64) *idlgen.Const { return &idlgen.Const{Kind: idlgen.CInt, Text: t, Val: values.Int(v)} }
+	ci := func(t string, v int64) *idlgen.Const {
+		return &idlgen.Const{Kind: idlgen.CInt, Text: t, Val: values.Int(v)}
+	}
 	f := &idlgen.File{Path: "dopt.thrift", GoNS: "dopt"}
 	f.Structs = []*idlgen.Struct{
 		{Kind: 's', Name: "Opt", Fields: []*idlgen.Field{
@@ -29,7 +33,35 @@ func directedProgram() *idlgen.Program {
 			fld(7, idlgen.Optional, ty(idlgen.Binary), "empty", cs("")),
 		}},
 	}
+	// ids written zero-padded / in hex (`010` is ten) and double defaults that need all 17 significant digits
+	cd := func(t string) *idlgen.Const {
+		fv, err := strconv.ParseFloat(t, 64)
+		if err != nil {
+			panic(err)
+		}
+		return &idlgen.Const{Kind: idlgen.CDouble, Text: t, Val: values.Double(math.Float64bits(fv))}
+	}
+	idt := func(fd *idlgen.Field, text string) *idlgen.Field { fd.IDText = text; return fd }
+	f.Structs = append(f.Structs, &idlgen.Struct{Kind: 's', Name: "Num", Fields: []*idlgen.Field{
+		idt(fld(10, idlgen.Optional, ty(idlgen.Double), "ratio", cd("0.123456789012")), "010"),
+		idt(fld(12, idlgen.Optional, ty(idlgen.Double), "scale", cd("16777217.0")), "012"),
+		idt(fld(17, idlgen.Optional, ty(idlgen.Double), "e", cd("2.718281828459045")), "017"),
+		idt(fld(32, idlgen.Default, ty(idlgen.I32), "hexid", ci("5", 5)), "0x20"),
+		idt(fld(9, idlgen.Optional, ty(idlgen.I64), "big", ci("1234567890123", 1234567890123)), "009"),
+		idt(fld(8, idlgen.Required, ty(idlgen.Double), "next", cd("1.0000000000000002")), "08"),
+	}})
 	return &idlgen.Program{Files: []*idlgen.File{f}}
+}
+
+// directedNumValues for struct Num: at the defaults, at their float32 roundings, elsewhere.
+func directedNumValues() []*values.Value {
+	d := func(x float64) *values.Value { return values.Double(math.Float64bits(x)) }
+	return []*values.Value{
+		values.Record(d(0.123456789012), d(16777217.0), d(2.718281828459045), values.Int(5), values.Int(1234567890123), d(1.0000000000000002)),
+		values.Record(d(float64(float32(0.123456789012))), d(16777216), d(float64(float32(2.718281828459045))), values.Int(5), values.Int(0), d(1)),
+		values.Record(d(0), d(-0.5), d(1e300), values.Int(-1), values.Int(-1), d(0)),
+		values.Record(d(0.123456789012), d(16777216), d(2.718281828459045), values.Int(0), values.Int(1234567890123), d(2)),
+	}
 }
 
 // directedValues for struct Opt (field order as above).
